@@ -157,6 +157,26 @@ add("C18",
     "variance output).",
     "DESIGN.md section 4, C18")
 
+add("C11",
+    "Hypothesis PBT: differential testing of generated representations per entry point against the canonical float64 DataFrame run",
+    "For every detector a representation (2-D/1-D ndarray, Series, DataFrame x float64/int64 x seven index kinds x column labels) "
+    "is drawn independently for fit, update, predict, transform and transform_scores; fitted thresholds/penalties, sparse "
+    "detections (incl. labels and icolumns), dense labels and scores must equal those of the canonical run and dense outputs "
+    "must carry X's own index; eleven scorer configurations likewise for fit/evaluate. Bounded exploration (n<=30, p<=3).",
+    "Trusted: pandas index construction; update is compared between containers of the same kind (arrays = default-index "
+    "frames, pandas objects with a continuing index).",
+    "DESIGN.md section 4, C11")
+add("C12",
+    "Hypothesis PBT: metamorphic relations (column permutation, per-column shift, positive scale, time reversal) with an error model, objective re-evaluation for the optimisers and a decision-margin rule for discrete outputs",
+    "Twelve scorer configurations and six detectors are run on generated float data and on the transformed data: scorer outputs "
+    "and score tables must agree within the prefix-sum error model (cuts mirrored for reversal, columns permuted), PELT's / "
+    "CAPA's result on the transformed data must attain the original optimum when re-evaluated on the original objective, "
+    "threshold detectors' detections must be equal whenever the decision margin is satisfied, MVCAPA's icolumns map through "
+    "the permutation. Bounded exploration (n<=40, p<=3).",
+    "Trusted: error model of DESIGN.md 3.4; near-degenerate slices (variance below 1e-8 x scale^2) are skipped for Gaussian "
+    "scorers and counted.",
+    "DESIGN.md section 4, C12")
+
 NOT_BUILT_REASON = "check not built yet in this round (designed in DESIGN.md section 4; no claim is made)"
 
 
